@@ -31,7 +31,9 @@ EXHAUSTIVE = {'quick': False, 'thorough': False}
 BOUNDS = {'quick': 'depth<=3 exhaustive orders, depth 4 sampled (200), thread mode 120 cases', 'thorough': 'depth 4 all orders, thread mode 2000 cases'}
 # ('ISE:...': the failure is an asyncio.InvalidStateError -- e.g. the scheduled code asked a future for a result it does not have yet --
 # an exception like any other as far as the adapters are concerned)
-OUTCOMES = [['value', 42], ['value', None], ['value', 0], ['exc', 'boom'], ['cancel'], ['exc', 'ISE:not-ready']]
+# ('KCE:...': the failure is an *instance* of the communicator library's CancelledError handed over as an exception -- a failure that
+# says "something else was cancelled" --, which is not the same as the future having been cancelled)
+OUTCOMES = [['value', 42], ['value', None], ['value', 0], ['exc', 'boom'], ['cancel'], ['exc', 'ISE:not-ready'], ['exc', 'KCE:inner-cancelled']]
 
 
 class AdapterError(Exception):
@@ -43,6 +45,8 @@ class AdapterError(Exception):
 
 
 def _exc_for(tag):
+    if str(tag).startswith('KCE:'):
+        return kiwipy.CancelledError(tag)
     return asyncio.InvalidStateError(tag) if str(tag).startswith('ISE:') else AdapterError(tag)
 
 
@@ -344,7 +348,7 @@ def run_case(case):
             else:
                 viol.append(V('adapter-pending', 'adapter-pending:%s:%s:%s' % (adapter, oc[0], pattern),
                               '%s: adapter future still pending after every level completed (order %s, outcome %s)' % (where, order, oc)))
-        elif not _same(got, exp, adapter):
+        elif not _same(got, exp, adapter if depth == 0 else adapter + ':awaited'):  # (only what the callback itself raises may arrive wrapped)
             viol.append(V('adapter-outcome', 'adapter-outcome:%s:%s:%s' % (adapter, oc[0], pattern),
                           '%s: adapter ended with %r, innermost outcome was %r (order %s)' % (where, got, exp, order)))
         obs['callbacks_counted'] = 1
